@@ -41,7 +41,7 @@ LETTERS = ["a", "B", "1", " ", "\xa0", "\t"]
 ACCENTED = ["é", "ü", "ñ", "ç", "ø", "ß", "Å", "æ"]
 PUNCT = [".", ",", ";", ":", "-", "(", ")", "!", "?", "'", "/", "|", "@", "*", "+", "=", "[", "]"]
 SPECIAL = ["&", "%", "#", "_", "$", "{", "}", "~", "\\", "<", ">"]
-MATH = ["$x+y$", "$a_1$"]
+MATH = ["$x+y$", "$a_1$", "$5\\$+3\\$-x$"]  # (the last: a formula holding two escaped dollar signs)
 URLS = ["http://a.b/c", "http://a.b/c_d", "www.x.org"]
 SIGMA = LETTERS + ACCENTED + PUNCT + SPECIAL + MATH + URLS
 SIGMA_CORE = ["a", " ", "\xe9", "&", "%", "$a_1$", "http://a.b/c", "~"]
